@@ -91,9 +91,11 @@ def classes(m):
     M = P._M()
     out = []
     if isinstance(m, M.Complex):
-        for nm, v in (("real", m.real), ("imag", m.imag)):
-            if v == 0 and math.copysign(1.0, v) < 0:
-                out.append("complex-negative-zero-" + nm)
+        # the imaginary part decides (a negative-zero real part alone is a different class)
+        if m.imag == 0 and math.copysign(1.0, m.imag) < 0:
+            out.append("complex-negative-zero-imag")
+        elif m.real == 0 and math.copysign(1.0, m.real) < 0:
+            out.append("complex-negative-zero-real")
     return out
 
 
